@@ -329,4 +329,11 @@ example : progressB Sites.asFound [36, 46, 109, 123, 34, 97, 34, 125] = true ∧
     ((newFieldMask Sites.asFound wS rS false [[36, 46, 109, 123, 42, 125]]).get?.map
       fun m => (getPath Sites.asFound wS (.some m) rS [36, 46, 109, 123, 92]).isCrash) = some true := by decide
 
+
+/-- **getpath_terminates_repaired.**  Once `lit()` always makes progress (`cfg.litStall = false`, repair D10)
+GetPath/PathInMask return for every mask, descriptor and path. -/
+theorem getpath_terminates_repaired (cfg : Sites) (hfix : cfg.litStall = false) (sch : Schema) (m : MaskOpt)
+    (desc : Ty) (path : Bytes) : getPath cfg sch m desc path ≠ .crash :=
+  getPath_total (progress_of_repaired hfix path)
+
 end Props.C14
